@@ -10,6 +10,7 @@ Does NOT decide that permute_block_swap / permute_cluster_charges preserve the m
 import ast
 
 from lcsa.eff import Effects
+from lcsa import bind as bind_mod
 from lcsa.model import Undecided, unparse, is_self_attr
 from props.common import CONDITIONAL_CALLEES, SEQ, SP, SEQ_PATH
 
@@ -242,10 +243,13 @@ def _ctor(ck, prog):
         f = prog.fn(SEQ, "Sequence." + m)
         for c in ast.walk(f.node):
             if isinstance(c, ast.Call) and prog.class_of_ctor(f.mod, c) == "Sequence":
-                args = [unparse(a) for a in c.args]
-                ok = len(args) >= 1 and (len(args) == 1 or args[1] == "self.dmax") and not c.keywords
-                if len(args) >= 3:
-                    ok = ok and args[2] != "self.chargePattern" and m == "swapRes"
+                callee, b = bind_mod.bind(prog, f, c)
+                a_dmax = unparse(b["dmax"]).replace(" ", "") if b and "dmax" in b else None
+                a_cp = unparse(b["chargePattern"]).replace(" ", "") if b and "chargePattern" in b else None
+                ck.shape(a_dmax in (None, "self.dmax", "-1"), "%s: child built with a dmax lcsa cannot relate to the receiver (%s)" % (m, a_dmax), f.loc(c))
+                stale = a_cp in ("self.chargePattern", "self.chargePattern[:]", "self.chargePattern.copy()", "cp.deepcopy(self.chargePattern)", "np.copy(self.chargePattern)")
+                ok = not stale and (a_cp is None or m == "swapRes")
+                ck.shape(ok or stale, "%s: child built with a charge pattern lcsa cannot relate to the new string (%s)" % (m, a_cp), f.loc(c))
                 ck.ob("CTOR-child", SEQ_PATH + ":Sequence." + m, ok, expected="Sequence(new, self.dmax) - pattern re-derived - or the consistently swapped copy",
                       found=unparse(c)[:90], slot="child@%d" % n, where=f.loc(c),
                       note="a carried dmax is valid because delta-max is composition-only (C03) and a move only rearranges")
@@ -335,57 +339,128 @@ def _full_shuffle(ck, prog):
           note="|movable| pops for |movable| non-frozen positions: a bijection on the non-frozen positions, identity on the frozen ones")
 
 
+CELLS = frozenset((c, fz) for c in "+-0" for fz in (True, False))
+_CMP = {"Gt": lambda c: c == "+", "Lt": lambda c: c == "-", "Eq": lambda c: c == "0", "NotEq": lambda c: c != "0", "GtE": lambda c: c != "-", "LtE": lambda c: c != "+"}
+_ALL_INDEX = {"np.arange(0,self.len)", "np.arange(self.len)", "range(self.len)", "range(0,self.len)", "range(len(self.seq))", "range(0,len(self.seq))",
+              "np.arange(len(self.seq))", "np.arange(0,len(self.seq))", "range(len(self.chargePattern))", "np.arange(len(self.chargePattern))",
+              "np.arange(0,len(self.chargePattern))", "range(0,len(self.chargePattern))", "range(len(self))", "np.arange(len(self))"}
+
+
+def _cells(node, env, frozen_name="frozen"):
+    """SETALG: an index-set expression as a set of cells of the partition {charge class} x {frozen or not}; None = not recognised"""
+    t = unparse(node).replace(" ", "")
+    if t in _ALL_INDEX:
+        return CELLS
+    if isinstance(node, ast.Name):
+        if node.id == frozen_name:
+            return frozenset(c for c in CELLS if c[1])
+        return env.get(node.id)
+    if isinstance(node, ast.Call):
+        fn = unparse(node.func)
+        if fn in ("set", "frozenset", "list", "sorted", "tuple", "np.array", "np.asarray") and len(node.args) == 1:
+            return _cells(node.args[0], env, frozen_name)
+        if fn in ("set", "frozenset") and not node.args:
+            return frozenset()
+        if fn in ("np.flatnonzero",) and len(node.args) == 1 and unparse(node.args[0]) == "self.chargePattern":
+            return frozenset(c for c in CELLS if c[0] != "0")
+        if isinstance(node.func, ast.Attribute) and node.func.attr in ("difference", "intersection", "union", "symmetric_difference") and len(node.args) == 1:
+            a, b = _cells(node.func.value, env, frozen_name), _cells(node.args[0], env, frozen_name)
+            if a is None or b is None:
+                return None
+            return {"difference": a - b, "intersection": a & b, "union": a | b, "symmetric_difference": a ^ b}[node.func.attr]
+        if isinstance(node.func, ast.Attribute) and node.func.attr == "copy" and not node.args:
+            return _cells(node.func.value, env, frozen_name)
+        return None
+    if isinstance(node, ast.Subscript) and unparse(node.slice) == "0" and isinstance(node.value, ast.Call):
+        c = node.value
+        fn = unparse(c.func)
+        if fn in ("np.where", "np.nonzero") and len(c.args) == 1:
+            a = c.args[0]
+            if unparse(a) == "self.chargePattern" and fn == "np.nonzero":
+                return frozenset(x for x in CELLS if x[0] != "0")
+            if isinstance(a, ast.Compare) and len(a.ops) == 1 and unparse(a.left) == "self.chargePattern" and unparse(a.comparators[0]) in ("0", "0.0"):
+                pred = _CMP.get(type(a.ops[0]).__name__)
+                return frozenset(x for x in CELLS if pred(x[0])) if pred else None
+        return None
+    if isinstance(node, ast.BinOp) and isinstance(node.op, (ast.Sub, ast.BitAnd, ast.BitOr, ast.BitXor)):
+        a, b = _cells(node.left, env, frozen_name), _cells(node.right, env, frozen_name)
+        if a is None or b is None:
+            return None
+        return a - b if isinstance(node.op, ast.Sub) else a & b if isinstance(node.op, ast.BitAnd) else a | b if isinstance(node.op, ast.BitOr) else a ^ b
+    return None
+
+
+def _fmt_cells(cs):
+    return sorted("%s%s" % ({"+": "positive", "-": "negative", "0": "neutral"}[c], "/frozen" if fz else "/free") for c, fz in cs)
+
+
 def _swap_rand(ck, prog):
     f = prog.fn(SEQ, "Sequence.swapRandChargeRes")
     construct = SEQ_PATH + ":Sequence.swapRandChargeRes"
-    sets = {}
-    for n in ast.walk(f.node):
-        if isinstance(n, ast.Assign) and isinstance(n.targets[0], ast.Name) and "np.where(self.chargePattern" in unparse(n.value):
-            v = n.value
-            minus = unparse(v.right).replace(" ", "") if isinstance(v, ast.BinOp) and isinstance(v.op, ast.Sub) else None
-            sets[n.targets[0].id] = minus
-    ck.shape(len(sets) == 3, "swapRandChargeRes: three candidate index sets built from the charge pattern", f.loc())
-    for name, minus in sorted(sets.items()):
-        ck.ob("USE-frozen", construct, minus in ("frozen", "set(frozen)"), expected="%s excludes the frozen positions" % name, found="- %s" % minus if minus else "no subtraction",
-              slot="index-set:" + name, where=f.loc())
-    rets = [unparse(r.value) for r in ast.walk(f.node) if isinstance(r, ast.Return) and r.value is not None]
-    ck.shape(all(r == "self" or r.startswith("self.swapRes(") for r in rets) and any(r.startswith("self.swapRes(") for r in rets),
-             "swapRandChargeRes: returns self or self.swapRes(i, j)", f.loc())
-    # the swapped indices come from samples whose population derives from those sets only
-    samp = [c for c in ast.walk(f.node) if isinstance(c, ast.Call) and getattr(c.func, "attr", "") == "sample" and c.args]
-    for c in samp:
-        txt = _resolve(f, c.args[0], stop=set(sets))
-        names = {x.id for x in ast.walk(ast.parse(txt, mode="eval")) if isinstance(x, ast.Name)}
-        lits = not names and "[" in txt
-        if lits:
-            continue          # the literal list of charge types
-        derived = names & set(sets)
-        foreign = {n for n in names if n not in sets and n not in ("sorted", "list", "rand", "self", "np", "set", "frozen", "len", "range")
-                   and not any(isinstance(a, ast.Assign) and isinstance(a.targets[0], ast.Name) and a.targets[0].id == n for a in ast.walk(f.node))}
-        ck.shape(bool(derived) or not foreign, "swapRandChargeRes: sample population traceable to the index sets", f.loc(c))
-        if "self.chargePattern" in txt.replace(" ", "") and not derived:
-            ck.ob("USE-frozen", construct, False, expected="partners drawn from the frozen-free index sets", found=unparse(c.args[0]), slot="partners", where=f.loc(c))
-    ck.ob("USE-frozen", construct, True, expected="partners drawn from the frozen-free index sets", found="%d sample sites" % len(samp), slot="partners", where=f.loc())
+    ck.shape("frozen" in f.params(), "swapRandChargeRes: parameter 'frozen'", f.loc())
+    # SETALG: evaluate every local index-set definition over the six cells {+,-,0} x {frozen, free} (may-contain: union over reassignments)
+    env = {}
+    assigns = sorted((n for n in ast.walk(f.node) if isinstance(n, ast.Assign) and len(n.targets) == 1 and isinstance(n.targets[0], ast.Name)), key=lambda n: n.lineno)
+    for n in assigns:
+        v = _cells(n.value, env)
+        if v is not None:
+            nm = n.targets[0].id
+            env[nm] = (env[nm] | v) if nm in env else v
+    rets = [r for r in ast.walk(f.node) if isinstance(r, ast.Return) and r.value is not None]
+    swaps = [r.value for r in rets if isinstance(r.value, ast.Call) and unparse(r.value.func) == "self.swapRes"]
+    ck.shape(all(unparse(r.value) == "self" or r.value in swaps for r in rets) and swaps, "swapRandChargeRes: returns self or self.swapRes(i, j)", f.loc())
+    pops = []
+    for call in swaps:
+        ck.shape(len(call.args) == 2 and not call.keywords, "swapRandChargeRes: swapRes(i, j)", f.loc(call))
+        for a in call.args:
+            # i = <name>[0] / <name> where every assignment of <name> is rand.sample(<set expr>, 1) / rand.choice(<set expr>)
+            base = a.value if isinstance(a, ast.Subscript) else a
+            ck.shape(isinstance(base, ast.Name), "swapRandChargeRes: swapped index held in a local", f.loc(call))
+            defs = [n.value for n in assigns if n.targets[0].id == base.id]
+            ck.shape(bool(defs), "swapRandChargeRes: swapped index '%s' assigned in the function" % base.id, f.loc(call))
+            for d in defs:
+                ck.shape(isinstance(d, ast.Call) and getattr(d.func, "attr", "") in ("sample", "choice") and d.args, "swapRandChargeRes: swapped index drawn by sample/choice", f.loc(d))
+                pops.append((base.id, d))
+    ck.shape(len(pops) >= 2, "swapRandChargeRes: both swapped indices are drawn from index sets", f.loc())
+    good = True
+    for name, d in pops:
+        cs = _cells(d.args[0], env)
+        ck.shape(cs is not None, "swapRandChargeRes: population %s of %s is an index-set expression over the charge pattern and the frozen set" % (unparse(d.args[0]), name), f.loc(d))
+        fz = frozenset(c for c in cs if c[1])
+        good &= ck.ob("USE-frozen", construct, not fz, expected="a swap partner is drawn from positions outside the frozen set",
+                      found={"population": unparse(d.args[0]), "may_contain": _fmt_cells(cs)}, slot="population:%s@%d" % (unparse(d.args[0])[:30], d.lineno - f.node.lineno), where=f.loc(d),
+                      note="set algebra evaluated over {positive, negative, neutral} x {frozen, free}")
+        ck.count("swap populations evaluated")
+    ck.sample({"index_sets": {k: _fmt_cells(v) for k, v in sorted(env.items())}})
 
 
 def _api(ck, prog, E):
     f = prog.fn(SP, "SequenceParameters.get_shuffled_sequence")
-    rets = [unparse(r.value).replace(" ", "") for r in ast.walk(f.node) if isinstance(r, ast.Return) and r.value is not None]
-    ck.ob("BIND-api", f.mod.relpath + ":" + f.qual, rets == ["SequenceParameters(SeqObj=self.SeqObj.full_shuffle(frozen))"],
-          expected="SequenceParameters(SeqObj=self.SeqObj.full_shuffle(frozen))", found=rets, slot="forwards", where=f.loc())
+    construct = f.mod.relpath + ":" + f.qual
+    fs = prog.fn(SEQ, "Sequence.full_shuffle")
+    calls = [n for n in ast.walk(f.node) if isinstance(n, ast.Call) and prog.resolve_call(f, n) is fs]
+    ck.shape(len(calls) == 1, "get_shuffled_sequence: one call of the backend full shuffle", f.loc())
+    _, b = bind_mod.bind(prog, f, calls[0])
+    a = b.get("frozen")
+    ck.ob("BIND-api", construct, a is not None and isinstance(a, ast.Name) and a.id == "frozen", expected="the caller's frozen set reaches full_shuffle",
+          found=unparse(calls[0]), slot="frozen", where=f.loc(calls[0]), note="dropping it lets frozen positions move")
+    ck.ob("BIND-api", construct, unparse(calls[0].func.value) == "self.SeqObj", expected="the shuffle is applied to the stored sequence object", found=unparse(calls[0].func),
+          slot="receiver", where=f.loc(calls[0]))
     s = E.sum[f.key]
-    ck.ob("EFF-receiver", f.mod.relpath + ":" + f.qual, not s.self_writes and not s.param_muts, expected="receiver and argument untouched",
+    ck.ob("EFF-receiver", construct, not s.self_writes and not s.param_muts, expected="receiver and argument untouched",
           found={"writes": sorted(s.self_writes), "args": sorted(s.param_muts)}, slot="writes")
     g = prog.fn("sequencePermutants.py", "SequencePermutants.get_permutant")
-    src = unparse(g.node).replace(" ", "")
-    ok = "self.SeqObj.full_shuffle([])" in src or "self.SeqObj.full_shuffle()" in src or "self.SeqObj.full_shuffle(set())" in src
+    gc = [n for n in ast.walk(g.node) if isinstance(n, ast.Call) and prog.resolve_call(g, n) is fs]
+    ck.shape(len(gc) == 1, "get_permutant: one call of the backend full shuffle", g.loc())
     sg = E.sum[g.key]
-    ck.ob("BIND-api", g.mod.relpath + ":" + g.qual, ok, expected="a full shuffle of the stored sequence", found=ok, slot="forwards", where=g.loc())
+    ck.ob("BIND-api", g.mod.relpath + ":" + g.qual, unparse(gc[0].func.value) == "self.SeqObj", expected="a full shuffle of the stored sequence", found=unparse(gc[0]), slot="forwards",
+          where=g.loc(gc[0]))
     ck.ob("EFF-receiver", g.mod.relpath + ":" + g.qual, not sg.self_writes, expected="receiver untouched", found=sorted(sg.self_writes), slot="writes")
     # SequenceParameters(SeqObj=...) keeps the object it is given
     h = prog.fn(SP, "SequenceParameters.__init__")
-    keeps = any(isinstance(n, ast.Assign) and unparse(n.targets[0]) == "self.SeqObj" and unparse(n.value) == "SeqObj" for n in ast.walk(h.node))
-    ck.ob("BIND-api", h.mod.relpath + ":" + h.qual, keeps, expected="SeqObj branch stores the object it is handed", found=keeps, slot="seqobj-branch", where=h.loc())
+    keeps = [n for n in ast.walk(h.node) if isinstance(n, ast.Assign) and unparse(n.targets[0]) == "self.SeqObj" and isinstance(n.value, ast.Name) and n.value.id == "SeqObj"]
+    ck.shape(bool(keeps) or "SeqObj" not in h.params(), "SequenceParameters.__init__: SeqObj branch", h.loc())
+    ck.ob("BIND-api", h.mod.relpath + ":" + h.qual, bool(keeps), expected="SeqObj branch stores the object it is handed", found=bool(keeps), slot="seqobj-branch", where=h.loc())
 
 
 def _retry_loops(ck, prog):
@@ -417,7 +492,9 @@ def _retry_loops(ck, prog):
               where=f.loc(lp))
         for w in work:
             inits = [s for s in lp.body if isinstance(s, ast.Assign) and any(isinstance(t, ast.Name) and t.id == w for t in s.targets)]
-            ok = bool(inits) and inits[0].lineno < written[w] and unparse(inits[0].value).replace(" ", "") in ("list(self.seq)", "\"\"", "''", "[]", "list(old_seq_list)")
+            fresh_forms = ("list(self.seq)", "\"\"", "''", "[]", "list(old_seq_list)", "old_seq_list[:]", "list(self.seq)[:]", "old_seq_list.copy()")
+            ck.shape(not inits or unparse(inits[0].value).replace(" ", "") in fresh_forms, "%s: working copy initialised in an unrecognised form" % m, f.loc(lp))
+            ok = bool(inits) and inits[0].lineno < written[w]
             ck.ob("IDIOM-retry", construct, ok, expected="'%s' is re-created from the receiver's sequence at the start of every attempt" % w,
                   found=[unparse(i) for i in inits] or "initialised outside the retry loop", slot="fresh-per-attempt:" + w, where=f.loc(lp),
                   note="blocks written by a rejected attempt would otherwise stay in place: residues get duplicated and lost")
